@@ -84,6 +84,15 @@ CHECKS = {
              "in the bin the DFT assigns is a DSP fact validated by recording tones/chirps and locating them with the file's own header "
              "(library reducer and an independent one), not proved.",
         design="3/C07", technique="Coq field-arithmetic proof over Q (registration algebra) + end-to-end tone location (exploration for the spectral-peak fact)"),
+    "C14": dict(
+        text="Theorems: the input reader takes sample (spectrum, pol) from the cell the GUPPI layout assigns to it and the 4-bit unpacking "
+             "inverts the packing; in every sub-block of every plan and for both bit depths the synthetic spectrum written at an output "
+             "column is added to the decoded input sample of the same spectrum and polarisation; the output has at most the input's and at "
+             "most the requested number of blocks; the custom deviation handed to the first requantisation is the same at every call "
+             "(the unrepaired in-place update is refuted in the model: c14_gain_unrepaired_refuted). The model's sub-block plan drives a "
+             "numpy reference of requant(input + scaled synthetic) that must equal the recorded bytes sample for sample; decoded input "
+             "blocks, framing and the logged gain sequence are checked directly on the implementation.",
+        design="3/C14", technique="Coq proof (layout arithmetic, gain sequence induction) + plan-driven byte-level correspondence"),
 }
 
 PENDING_REASON = "check not built yet in this session (planned in DESIGN.md section 3); no claim is made for it in this commit"
